@@ -9,7 +9,7 @@ Classes == {"identifier", "field", "unexported", "method", "nilderef", "mapfield
             "slice-bound", "slice-kind", "operand-mul", "operand-add", "operand-neg", "operand-cmp", "calltarget", "calltarget-nil",
             "argcount", "argcount-jetfunc", "argtype", "arg-invalid", "underscore", "underscore-jetfunc", "func",
             "len-kind", "ints-range", "pipe-nonfunc"}
-Positions == {"print", "let", "set", "ifcond", "iflet", "rangecoll", "yieldarg", "yieldctx", "ycontentctx", "includectx", "return", "execctx"}
+Positions == {"print", "let", "set", "ifcond", "iflet", "rangecoll", "yieldarg", "yieldctx", "ycontentctx", "includectx", "return", "execctx", "yieldnoval", "yieldnoval0"}
 Places == {"main", "layout"}
 PosKinds == {"include", "ycont", "ybody", "blockdef", "range", "iflet", "tryin", "exec", "includectx"}
 
@@ -26,6 +26,8 @@ Failing(pos, class) ==
     [] pos = "ycontentctx"-> <<YieldC("fy", "bq", <<>>, NoE, <<T("no")>>)>>
     [] pos = "includectx" -> <<InclCx("ff", "other", e)>>
     [] pos = "return"     -> <<Ret("ff", e)>>
+    [] pos = "yieldnoval"  -> <<YieldS("ff", "bp", <<Par("zz", NoE)>>, NoE)>>       \* an argument without a value
+    [] pos = "yieldnoval0" -> <<YieldS("ff", "b0", <<Par("zz", NoE)>>, NoE)>>       \* ... for a block without parameters
     [] pos = "execctx"    -> <<ExecLetCx("ff", "r", "other", e)>>
 
 MkC(par) ==
@@ -35,7 +37,7 @@ MkC(par) ==
       r      == Build(path, 1, focal)
       toplet == ~(pos = "print" /\ fill = 1)     \* without a top-level := the failing scope chain reaches the pool as it is
       body   == <<T("pre")>> \o (IF toplet THEN <<LetS("ls", "s", Lit("s0"))>> ELSE <<>>) \o r.main \o <<T("post")>>
-      blocks == r.bl \o <<BlockS("bpd", "bp", <<Par("p", Lit("dp"))>>, NoE, <<T("bp")>>),
+      blocks == r.bl \o <<BlockS("bpd", "bp", <<Par("p", Lit("dp"))>>, NoE, <<T("bp")>>), BlockS("b0d", "b0", <<>>, NoE, <<T("b0")>>),
                           BlockS("bqd", "bq", <<>>, NoE, <<T("bq0"), YContentCx("ffq", IF pos = "ycontentctx" THEN Ex("err", class) ELSE Lit("okctx")), T("bq1")>>)>>
       ent    == IF place = "main" THEN <<Tm("main", "", <<"lib">>, body)>>
                 ELSE <<Tm("main", "base", <<"lib">>, <<T("junk")>>), Tm("base", "", <<>>, body)>>
@@ -48,6 +50,7 @@ MkC(par) ==
 
 cParams == {p \in PathsUpTo(PosKinds, Depth) \X Classes \X Positions \X Places \X (0..1) :
               /\ (p[5] = 1 => p[3] = "print")
+              /\ (p[3] \in {"yieldnoval", "yieldnoval0"} => p[2] = "identifier")
               /\ (p[2] \in {"pipe-nonfunc", "safewriter-notlast"} => p[3] = "print")
               /\ (p[4] = "layout" => p[3] \in {"print", "let", "yieldarg"})}
 =============================================================================
